@@ -53,7 +53,7 @@ pub fn worker(args: &[String]) -> i32 {
         eprintln!("no plan for {property}");
         return 2;
     };
-    // watchdog: no progress for 30 s => the engine hangs
+    // watchdog: no progress for 120 s => the engine hangs
     {
         let progress = marker.progress.clone();
         let busy = Arc::new(std::sync::atomic::AtomicBool::new(false));
@@ -67,8 +67,8 @@ pub fn worker(args: &[String]) -> i32 {
                 if cur != last || !busy.load(std::sync::atomic::Ordering::Relaxed) {
                     last = cur;
                     since = Instant::now();
-                } else if since.elapsed() > Duration::from_secs(30) {
-                    eprintln!("HANG: no progress for 30 s");
+                } else if since.elapsed() > Duration::from_secs(120) {
+                    eprintln!("HANG: no progress for 120 s");
                     std::process::exit(3);
                 }
             }
